@@ -184,6 +184,12 @@ Proof.
       * inversion H; subst. exists []. rewrite app_nil_r. auto.
 Qed.
 
+Lemma do_wait_obj w x i vis : obj_ok w x i -> obj_ok w (fst (do_wait (view_of w) x vis)) i.
+Proof.
+  intros O. unfold do_wait. destruct (oexit x); [exact O|]. destruct (opid x <=? 0); [exact O|].
+  destruct (vis && kexists (view_of w) (opid x)); cbn [fst]; [exact O|]. apply obj_ok_with_exit; auto.
+Qed.
+
 Lemma obj_ok_with_shot w x i n p t : obj_ok w x i -> obj_ok w (with_shot n p t x) i.
 Proof. intros (H1 & H2 & H3 & H4 & H5). unfold obj_ok; cbn [with_shot opid ostart ogone oreused ohash ident]. splits; auto; lia. Qed.
 
@@ -273,7 +279,7 @@ Proof.
                            Forall (fresh w) news).
   { intros m o x1 x i Ex Ei O1 E. exists (upd_nth o x1 (objs (ms w))), []. rewrite app_nil_r.
     splits; auto. eapply upd_objs_ok; eauto. }
-  destruct c as [pid|pid|o|o s|o|o|o|o|o|a b|a b|o s|o|o| | |o| |g]; cbn [mcall] in H.
+  destruct c as [pid|pid|o|o s|o|o|o|o|o|a b|a b|o s|o|o| | |o vis| |g|o vis]; cbn [mcall] in H.
   - (* New *)
     destruct (new_obj (view_of w) pid) as [y|e|] eqn:N; inversion H; subst; auto.
     exists (objs (ms w)), [y]. cbn [with_objs objs]. splits; auto. constructor; [left; eauto|constructor].
@@ -365,10 +371,9 @@ Proof.
   - (* Wait *)
     destruct (nth_error (objs (ms w)) o) as [x|] eqn:Ex; [|inversion H; subst; auto].
     destruct (Forall2_nth_l _ _ _ _ _ F Ex) as (i & Ei & O).
-    unfold do_wait in H. destruct (oexit x); [|destruct (kexists (view_of w) (opid x))]; inversion H; subst.
-    + apply (Upd _ o x x i); auto.
-    + apply (Upd _ o x x i); auto.
-    + apply (Upd _ o (with_exit true x) x i); auto; apply obj_ok_with_exit; auto.
+    pose proof (do_wait_obj w x i vis O) as O1.
+    destruct (do_wait (view_of w) x vis) as [x1 r1]. cbn [fst] in O1. inversion H; subst.
+    apply (Upd _ o x1 x i); auto.
   - (* IterStart *)
     inversion H; subst. apply Same. reflexivity.
   - (* IterNext *)
@@ -386,6 +391,17 @@ Proof.
         eapply Forall_impl; [|exact Fn]. intros y Hy. left. exact Hy. }
       destruct r1 as [[i|]|e|]; inversion H; subst; apply G; reflexivity.
     + inversion H; subst. apply Same. reflexivity.
+  - (* WaitProcs *)
+    destruct (nth_error (objs (ms w)) o) as [x|] eqn:Ex; [|inversion H; subst; auto].
+    destruct (Forall2_nth_l _ _ _ _ _ F Ex) as (i & Ei & O).
+    unfold do_wait_procs in H.
+    pose proof (do_hash_ok w x i O) as (O0 & _ & _). destruct (do_hash x) as [x0 h0]. cbn [fst] in O0.
+    pose proof (do_wait_obj w x0 i vis O0) as O1. destruct (do_wait (view_of w) x0 vis) as [x1 r1]. cbn [fst] in O1.
+    destruct r1 as [u|e|].
+    + destruct (is_running_spec w x1 i I O1) as (x2 & add & E & (_ & _ & O2) & _). rewrite E in H.
+      inversion H; subst. apply (Upd _ o x2 x i); auto.
+    + destruct e; inversion H; subst; apply (Upd _ o x1 x i); auto.
+    + inversion H; subst. apply (Upd _ o x1 x i); auto.
 Qed.
 
 Lemma cstep_eq w c :
